@@ -113,6 +113,7 @@ type ItemDirective struct {
 	Edge      bool  `json:"edge,omitempty"` // put Q values exactly on the lower bin edge (and 1.0 in the last bin)
 	FailHigh  bool  `json:"fail_high,omitempty"` // two-sided items: failing samples have Q near 1 (bin 9) instead of near 0
 	P2Only    bool  `json:"p2_only,omitempty"`    // overlapping item: every failing sample fails through P2 only (Q1 stays an ordinary mid-range value)
+	Q2Bin     int   `json:"q2_bin,omitempty"`     // overlapping item, 1..10: the second Q value of every passing sample lies in that one bin (the rule looks at the first only)
 	AlphaEdge int   `json:"alpha_edge,omitempty"` // this many passing samples of bin 0 have P exactly equal to alpha (they pass: P >= alpha)
 }
 
